@@ -501,9 +501,130 @@ def part_b(ctx, res):
     chain.unpatch()
 
 
+# ------------------------------------------------------------------ part C
+
+def part_c(ctx, res):
+    """the fetch scheduler: the real ChainManager.step on a real node with several connections, under a chosen clock and a
+    chosen random.choice; between steps the scheduler-relevant fields of a connection change (set directly, or through the
+    real empty-inventory handler), the head moves; against the model's chainStep. Monitors (the property's side): a step
+    sends at most one request, only to a greeted connection, carrying the node's own locator; a due step with an eligible
+    connection and no unexpired request does ask."""
+    from skepticoin.networking.remote_peer import InventoryMessageState
+    from skepticoin.networking.messages import InventoryItem
+    import skepticoin.networking.params as nparams
+    rng = ctx.rng
+    for si in range(ctx.scale(8, 40)):
+        lines = chain.patch(horizon=-1)
+        keys = chain.Keys(rng, 2)
+        tree = chain.Tree(rng, keys, genesis=None)
+        for _ in range(rng.randrange(1, 24)):
+            tree.extend(n_tx=0)
+        rn = node.RealNode(tree.cs, tree.blocks)
+        ops = list(lines) + ["new t"] + ["addnv t t " + hx(b.serialize()) for b in tree.blocks] + ["node new t 0"]
+        n_peers = rng.choice([0, 1, 2, 3, 4])
+        for k in range(n_peers):
+            act, outg = rng.random() < 0.75, rng.random() < 0.5
+            rn.add_peer(active=act, outgoing=outg)
+            ops.append("node peer %d %d" % (act, outg))
+        impl = ["ok"] * len(ops)
+        head_ts = tree.cs.head().timestamp
+        started = head_ts + rng.choice([-100000, -1000, 0, 10, 250, 400, 100000])
+        rn.cm.started_at = started
+        rn.cm.actively_fetching_blocks_from_peers = []
+        ops.append("fetch new %d" % started)
+        impl.append("ok")
+        now = started + rng.choice([0, 30, 59, 60, 61, 500])
+
+        def line():
+            fl = ",".join("%d:%d" % (t, rn.peers.index(p)) for t, p in rn.cm.actively_fetching_blocks_from_peers)
+            return "fetching=%s waiting=%s" % (fl, "".join("1" if p.waiting_for_inventory else "0" for p in rn.peers))
+
+        for step in range(rng.randrange(6, 30)):
+            r = rng.random()
+            if n_peers and r < 0.35:
+                c = rng.randrange(n_peers)
+                waiting = rng.random() < 0.4
+                npend = rng.choice([0, 0, 1, 3])
+                last = rng.choice([0, now - 61, now - 60, now - 59, now - rng.randrange(0, 200)])
+                p = rn.peers[c]
+                p.waiting_for_inventory = waiting
+                p.inventory_messages = ([InventoryMessageState(rn.header(), InventoryMessage(
+                    [InventoryItem(DATA_BLOCK, bytes([i + 1]) * 32) for i in range(npend)]))] if npend else [])
+                p.last_empty_inventory_response_at = last
+                ops.append("fetch peer %d %d %d %d" % (c, waiting, npend, last))
+                impl.append("ok")
+                res.count("set_peer_fields")
+            elif n_peers and r < 0.5:
+                c = rng.randrange(n_peers)
+                p = rn.peers[c]
+                if p.hello_received:
+                    node.CLOCK[0] = now
+                    try:
+                        p.handle_inventory_message_received(rn.header(1, 1), InventoryMessage([]))
+                        out = "ret " + line()
+                    except Exception:
+                        out = "exc"
+                    ops.append("fetch emptyinv %d %d" % (c, now))
+                    impl.append(out)
+                    res.count("empty_inventory")
+            elif r < 0.6:
+                b = tree.extend(n_tx=0)
+                rn.cm.set_coinstate(tree.cs)
+                ops += ["addnv t t " + hx(b.serialize()), "node setstate t 1"]
+                impl += ["ok", "ok"]
+                res.count("head_moves")
+            now += rng.choice([0, 1, 29, 30, 59, 60, 61, 120, 301])
+            if rng.random() < 0.3:
+                now -= now % 60
+            pick = rng.randrange(0, 8)
+            before = [len(rn.frames(p)) for p in rn.peers]
+            due = rn.cm.should_actively_fetch_blocks(now)
+            unexpired = [t for t, _p in rn.cm.actively_fetching_blocks_from_peers if now < t]
+            eligible = [k for k, p in enumerate(rn.peers) if p.hello_sent and p.hello_received
+                        and now > p.last_empty_inventory_response_at + nparams.EMPTY_INVENTORY_BACKOFF]
+            own_locator = [h for h in rn.cm.get_get_blocks_message().potential_start_hashes]
+            orig = pyrandom.choice
+            pyrandom.choice = lambda seq: seq[pick % len(seq)]
+            try:
+                rn.cm.step(now)
+                err = None
+            except Exception as e:
+                err = e
+            finally:
+                pyrandom.choice = orig
+            sent = []
+            info = {"scenario": si, "step": step, "now": now, "pick": pick, "peers": n_peers}
+            for k, p in enumerate(rn.peers):
+                fr = rn.frames(p)
+                for it in fr[before[k]:]:
+                    if it != "PARTIAL" and isinstance(it[1], GetBlocksMessage):
+                        sent.append("%d<-GB:%s" % (k, ",".join(h[:8].hex() for h in it[1].potential_start_hashes)))
+                        if not (p.hello_sent and p.hello_received):
+                            res.violations.append({**info, "kind": "a fetch request went to a connection that is not greeted"})
+                        if it[1].potential_start_hashes != own_locator:
+                            res.violations.append({**info, "kind": "a fetch request does not carry the node's own locator"})
+                    else:
+                        sent.append("%d<-other" % k)
+            if len(sent) > 1:
+                res.violations.append({**info, "kind": "one manager step sent %d messages" % len(sent)})
+            if err is None and due and eligible and not unexpired and not sent:
+                res.violations.append({**info, "kind": "a due step with an eligible connection (%s) and no unexpired request "
+                                       "did not ask anyone" % eligible})
+            ops.append("fetch step %d %d" % (now, pick))
+            impl.append("err" if err is not None else "ok sent=%s %s" % (";".join(sent), line()))
+            res.case(("fetch", si, step), nontrivial=bool(n_peers))
+            res.count("fetch_step:" + ("asked" if sent else "due_silent" if due else "not_due"))
+        rn.close()
+        model = ctx.driver.ask(ops)
+        model = [m.split(" ", 1)[0] if m.startswith("err") else m for m in model]
+        kit.compare(res, ops, impl, model)
+    chain.unpatch()
+
+
 def run(ctx):
     res = kit.Result()
     part_a(ctx, res)
+    part_c(ctx, res)
     part_b(ctx, res)
     res.rule = ("A: the node's locator and its inventory reply (real handle_get_blocks_message_received / "
                 "get_get_blocks_message) for honest locators of every other tip and adversarial locators over chains with "
@@ -512,6 +633,10 @@ def run(ctx):
                 "more than one batch), every topology incl. incoming/outgoing orientation, FIFO channels, seeded random "
                 "interleavings of deliveries and manager steps, run to the fixpoint (a back-off window with only empty "
                 "replies); monitors: every head at the greatest initial height, complete chains, transaction flood reaches "
-                "every pool, at most one unsolicited relay per id and connection, no handler raises. Distinct non-trivial = "
-                "locators and network runs")
+                "every pool, at most one unsolicited relay per id and connection, no handler raises. C: the real "
+                "ChainManager.step on a node with 0-4 connections (greeted or not), chosen clock (around the 60 s marks, the "
+                "back-off and the time-outs) and chosen random.choice, connection fields changed between steps directly or "
+                "through the real empty-inventory handler, head moves; against the model's chainStep; monitors: at most one "
+                "request per step, to a greeted connection, with the node's own locator; a due step with an eligible "
+                "connection and no unexpired request asks. Distinct non-trivial = locators, scheduler steps and network runs")
     return res
